@@ -99,37 +99,40 @@ func scenario(name string, linger time.Duration, disrupt func(x *netctl.Exec, st
 			st := x.Data.(*state)
 			return x.ThreadsDone() && len(st.led.Outstanding()) == 0
 		},
-		Final: func(x *netctl.Exec) {
-			st := x.Data.(*state)
-			// After the last deviation the environment is well behaved: every
-			// promise must run within the virtual horizon.
-			deadline := time.Now().Add(3 * time.Minute)
-			for len(st.led.Outstanding()) > 0 && time.Now().Before(deadline) {
-				time.Sleep(100 * time.Millisecond)
-			}
-			if out := st.led.Outstanding(); len(out) > 0 {
-				x.Violate("promise-never", "records %v not promised 3 virtual minutes into a fault-free suffix", out)
-			}
-			st.led.Check(x, false)
-			if !st.closed {
-				if n, b := st.cl.BufferedProduceRecords(), st.cl.BufferedProduceBytes(); len(st.led.Outstanding()) == 0 && (n != 0 || b != 0) {
-					x.Violate("buffered-nonzero", "all promises ran but BufferedProduceRecords=%d BufferedProduceBytes=%d", n, b)
-				}
-				ctx, cancel := context.WithTimeout(context.Background(), 30*time.Second)
-				if err := st.cl.Flush(ctx); err != nil && len(st.led.Outstanding()) == 0 {
-					x.Violate("flush-stuck", "Flush with nothing buffered returned %v", err)
-				}
-				cancel()
-			}
-			select {
-			case err := <-st.flushed:
-				_ = err
-			default:
-			}
-			st.hooks.CheckProduce(x, st.led)
-			x.Observe("%s", st.led.Summary())
-		},
+		Final: finalProducer,
 	}
+}
+
+// finalProducer is the oracle phase shared by the producer scenarios.
+func finalProducer(x *netctl.Exec) {
+	st := x.Data.(*state)
+	// After the last deviation the environment is well behaved: every
+	// promise must run within the virtual horizon.
+	deadline := time.Now().Add(3 * time.Minute)
+	for len(st.led.Outstanding()) > 0 && time.Now().Before(deadline) {
+		time.Sleep(100 * time.Millisecond)
+	}
+	if out := st.led.Outstanding(); len(out) > 0 {
+		x.Violate("promise-never", "records %v not promised 3 virtual minutes into a fault-free suffix", out)
+	}
+	st.led.Check(x, false)
+	if !st.closed {
+		if n, b := st.cl.BufferedProduceRecords(), st.cl.BufferedProduceBytes(); len(st.led.Outstanding()) == 0 && (n != 0 || b != 0) {
+			x.Violate("buffered-nonzero", "all promises ran but BufferedProduceRecords=%d BufferedProduceBytes=%d", n, b)
+		}
+		ctx, cancel := context.WithTimeout(context.Background(), 30*time.Second)
+		if err := st.cl.Flush(ctx); err != nil && len(st.led.Outstanding()) == 0 {
+			x.Violate("flush-stuck", "Flush with nothing buffered returned %v", err)
+		}
+		cancel()
+	}
+	select {
+	case err := <-st.flushed:
+		_ = err
+	default:
+	}
+	st.hooks.CheckProduce(x, st.led)
+	x.Observe("%s", st.led.Summary())
 }
 
 // Plans returns the C01 producer scenarios (also reused by C14 and C41).
@@ -168,6 +171,5 @@ var plans = []nrun.Plan{
 		st.cl.Close()
 	}), QuickBudget: 1, ThoroughBudget: 2},
 }
-
 
 func kfakeSeed() []kfake.Opt { return []kfake.Opt{kfake.SeedTopics(2, "t")} }
